@@ -245,6 +245,43 @@ fn props(path: &str) -> Vec<Value> {
     }).collect()
 }
 
+/// the call sequences of Elixir!BuilderCases on both builders: what each builds, before and after the wire, and as a struct
+fn builder_calls(path: &str) -> Vec<Value> {
+    fn key(k: &str) -> &'static str {
+        match k { "a" => "a", "b" => "b", "c" => "c", _ => "d" }
+    }
+    read_ndjson(path).iter().map(|c| {
+        let mut kb = KeywordListBuilder::new();
+        let mut mb = AtomKeyMapBuilder::new();
+        let mut effective = 0usize;
+        for o in c["ops"].as_array().cloned().unwrap_or_default() {
+            let k = o["key"].as_str().unwrap_or("a");
+            let n = o["val"].as_i64().unwrap_or(0);
+            let on = o["on"].as_bool().unwrap_or(true);
+            match o["op"].as_str().unwrap_or("") {
+                "put" => { kb = kb.put(k, n); mb = mb.insert(k, n); effective += 1; }
+                "put_atom" => { kb = kb.put_atom(k, "x"); mb = mb.insert_atom(k, "x"); effective += 1; }
+                "put_flag" => { kb = kb.put_flag(k); mb = mb.insert_term(k, OwnedTerm::boolean(true)); effective += 1; }
+                "put_if" => { kb = kb.put_if(on, k, n); mb = mb.insert_if(on, k, n); effective += on as usize; }
+                "put_some" => { kb = kb.put_some(k, on.then_some(n)); mb = mb.insert_some(k, on.then_some(n)); effective += on as usize; }
+                _ => {
+                    let ps: Vec<(&'static str, i64)> = o["pairs"].as_array().map(|a| a.iter().map(|p| (key(p[0].as_str().unwrap_or("d")), p[1].as_i64().unwrap_or(0))).collect()).unwrap_or_default();
+                    effective += ps.len();
+                    kb = kb.extend(ps.clone());
+                    mb = mb.extend(ps);
+                }
+            }
+        }
+        let (kl_len, m_len) = (kb.len(), mb.len());
+        let kl = kb.clone().build();
+        let m = mb.clone().build();
+        let st = mb.build_struct("Mod");
+        let wire = |t: &OwnedTerm| erltf::encode(t).ok().and_then(|b| erltf::decode(&b).ok());
+        json!({"keyword": denote(&kl), "keyword_wire": wire(&kl).as_ref().map(denote), "map": denote(&m), "map_wire": wire(&m).as_ref().map(denote),
+               "struct": denote(&st), "struct_wire": wire(&st).as_ref().map(denote), "keyword_len": kl_len, "map_len": m_len, "effective_calls": effective})
+    }).collect()
+}
+
 pub fn run(args: &[String]) -> i32 {
     // elixir-run <ranges.ndjson> <cross.ndjson> <mutations.ndjson> <valid.ndjson> <out.ndjson> [<proplists.ndjson>]
     quiet_panics();
@@ -304,6 +341,14 @@ pub fn run(args: &[String]) -> i32 {
         o["set"] = json!("builder");
         o["i"] = json!(i);
         w.put(&o);
+    }
+    if let Some(bp) = args.get(6) {
+        for (i, o) in builder_calls(bp).into_iter().enumerate() {
+            let mut o = o;
+            o["set"] = json!("builder_calls");
+            o["i"] = json!(i);
+            w.put(&o);
+        }
     }
     w.finish();
     0
